@@ -133,6 +133,8 @@ def run_job(job):
         for n in LENS:
             ents = [bytes(n), b"\xff" * n, b"\x01" + bytes(n - 1), b"\x80" + bytes(n - 1), bytes(n - 1) + b"\x01"]
             ents += [filler(seed, f"c10-e{n}-{i}", n) for i in range(8)]
+            from vf.runner import lookalikes
+            ents += lookalikes(n)
             for bit in range(n * 8):
                 b = bytearray(n)
                 b[bit // 8] = 0x80 >> (bit % 8)
